@@ -18,6 +18,10 @@ use base::refmodel as rf;
 #[derive(Clone, Debug, PartialEq)]
 pub enum Act {
     Feed(usize),
+    /// feed through another call form: 1 = single-block call in place, 2 = single-block call buffer to buffer,
+    /// 3 = `write_keystream_block` + XOR (cores), 4 = `write_keystream_blocks` of PAR+1 blocks + XOR (cores),
+    /// 5 / 6 = caller-supplied closure (`*_with_backend` / `process_with_backend`) over PAR / PAR+1 blocks
+    Via(u8),
     Reinst,
     /// `set_block_pos(p)` on a seekable core (position relative to the IV of the current instance)
     SetPos(usize),
@@ -38,6 +42,35 @@ impl Obj {
             Obj::Core(c) => {
                 let _ = c.apply_blocks(Kind::InPlace, &[], buf);
             }
+        }
+    }
+    fn feed_via(&mut self, f: u8, buf: &mut [u8]) {
+        let inp = buf.to_vec();
+        match (self, f) {
+            (Obj::Bm(b), 1) => b.one(Kind::InPlace, &[], buf),
+            (Obj::Bm(b), 2) => b.one(Kind::B2b, &inp, buf),
+            (Obj::Core(c), 1) => c.apply_block(Kind::InPlace, &[], buf),
+            (Obj::Core(c), 2) => c.apply_block(Kind::B2b, &inp, buf),
+            (Obj::Core(c), 3) | (Obj::Core(c), 4) => {
+                let mut ks = vec![0u8; buf.len()];
+                if f == 3 {
+                    c.write_block(&mut ks);
+                } else {
+                    c.write_blocks(&mut ks);
+                }
+                for (b, k) in buf.iter_mut().zip(&ks) {
+                    *b ^= k;
+                }
+            }
+            (Obj::Bm(b), 5) | (Obj::Bm(b), 6) => b.many_closure(f - 4, buf),
+            (Obj::Core(c), 5) | (Obj::Core(c), 6) => {
+                let mut ks = vec![0u8; buf.len()];
+                c.write_blocks_closure(f - 4, &mut ks);
+                for (b, k) in buf.iter_mut().zip(&ks) {
+                    *b ^= k;
+                }
+            }
+            _ => unreachable!(),
         }
     }
     fn state(&self) -> Vec<u8> {
@@ -82,6 +115,18 @@ struct ResumeMachine<'a> {
     max_cuts: usize,
 }
 impl ResumeMachine<'_> {
+    /// number of blocks call form `f` consumes (None: form not available for this object)
+    fn via_len(&self, f: u8) -> Option<usize> {
+        let par = crate::util::par_of(self.cfg);
+        match (self.core.is_some() && self.bm.is_none(), f) {
+            (_, 1) | (_, 2) => Some(1),
+            (true, 3) => Some(1),
+            (true, 4) => Some(par + 1),
+            (_, 5) => Some(par),
+            (_, 6) => Some(par + 1),
+            _ => None,
+        }
+    }
     fn make(&self, iv: &[u8]) -> Obj {
         match (self.bm, self.core) {
             (Some(d), _) => Obj::Bm(rec::bm(self.cfg, d, self.key, iv)),
@@ -93,7 +138,11 @@ impl ResumeMachine<'_> {
 impl Machine for ResumeMachine<'_> {
     type Act = Act;
     fn actions(&self, hist: &[Act]) -> Vec<Act> {
-        let used: usize = hist.iter().map(|a| if let Act::Feed(n) = a { *n } else { 0 }).sum();
+        let used: usize = hist.iter().map(|a| match a {
+            Act::Feed(n) => *n,
+            Act::Via(f) => self.via_len(*f).unwrap_or(0),
+            _ => 0,
+        }).sum();
         let cuts = hist.iter().filter(|a| **a == Act::Reinst).count();
         let mut v = vec![];
         if cuts < self.max_cuts && hist.last() != Some(&Act::Reinst) {
@@ -116,6 +165,13 @@ impl Machine for ResumeMachine<'_> {
             }
             if used + s <= self.nmax {
                 v.push(Act::Feed(s));
+            }
+        }
+        for f in 1..=6u8 {
+            if let Some(n) = self.via_len(f) {
+                if used + n <= self.nmax {
+                    v.push(Act::Via(f));
+                }
             }
         }
         v
@@ -147,6 +203,17 @@ impl Machine for ResumeMachine<'_> {
                     obj.feed(&mut buf);
                     let w = &self.want.out[off * g..(off + n) * g];
                     ensure!(buf == w, format!("continuation/{}", self.name), "{} history {:?}: step {} produced {} but an uninterrupted run produces {} (blocks {}..{})", self.ty, hist, i + 1, short(&buf), short(w), off, off + n);
+                    off += n;
+                }
+                Act::Via(f) => {
+                    let n = self.via_len(*f).unwrap();
+                    if off + n > self.nmax {
+                        return Ok(None);
+                    }
+                    let mut buf = self.data[off * g..(off + n) * g].to_vec();
+                    obj.feed_via(*f, &mut buf);
+                    let w = &self.want.out[off * g..(off + n) * g];
+                    ensure!(buf == w, format!("continuation/{}", self.name), "{} history {:?}: step {} (call form {}) produced {} but an uninterrupted run produces {} (blocks {}..{})", self.ty, hist, i + 1, f, short(&buf), short(w), off, off + n);
                     off += n;
                 }
                 Act::Reinst => {
@@ -415,7 +482,7 @@ pub fn run(ctx: &Ctx) -> Outcome {
     });
     let mut o = merge(r1);
     extend(&mut o, merge(r2));
-    o.rule = "merged BFS per IvState type (cbc, pcbc, ige, cfb, cfb8 x enc/dec; OfbCore as encryptor/decryptor/core; the six CtrCore; BeltCtrCore) over actions {feed 1, 2, PAR+1 blocks; reinstantiate = iv_state() -> inner_iv_init under the same key} with <= 3 cuts per history, and per buffered CFB type over {feed l bytes; get_state() -> from_state()}; invariants on every history: output equals the uninterrupted run, the exported value equals the reference public chaining value at that offset, reinstantiation does not change the canonical state (singleton state per offset; key = offset, exported value, two-block probe); stateless: every single byte cut point for buffered CFB; encryptor and decryptor fed corresponding data export equal values after every block".into();
+    o.rule = "merged BFS per IvState type (cbc, pcbc, ige, cfb, cfb8 x enc/dec; OfbCore as encryptor/decryptor/core; the six CtrCore; BeltCtrCore) over actions {feed 0, 1, 2, PAR, PAR+1, 2*PAR blocks through the multi-block call; one block through the single-block call (in place, buffer to buffer); write_keystream_block / write_keystream_blocks (cores); caller-supplied closures over PAR and PAR+1 blocks; set_block_pos and clone; reinstantiate = iv_state() -> inner_iv_init under the same key} with <= 3 cuts per history, and per buffered CFB type over {feed l bytes; get_state() -> from_state()}; invariants on every history: output equals the uninterrupted run, the exported value equals the reference public chaining value at that offset, reinstantiation does not change the canonical state (singleton state per offset; key = offset, exported value, two-block probe); stateless: every single byte cut point for buffered CFB; encryptor and decryptor fed corresponding data export equal values after every block".into();
     o.configs = cfgs.iter().map(|c| c.name.clone()).collect();
     o.bounds = vec![("max_blocks".into(), J::Str(tier.pick("2*PAR+2", "3*PAR+3").into())), ("bufcfb_len".into(), J::Str(tier.pick("3*bs+2", "4*bs+3").into())), ("max_cuts".into(), J::Int(3))];
     o.assumptions = vec!["CTR resumption restarts the block count; continuation is compared on the range the original could still produce (far from the limit here; the limit is C11's subject)".into()];
